@@ -4,7 +4,7 @@ LEVEL = "proof"
 CORE = "routee-compass-core"
 wit = KaniUnit("c05_wit", CORE, modules=[dict(file=CORE + "/src/algorithm/search/search_instance.rs", src="world.rs"),
                                           dict(file=CORE + "/src/algorithm/search/search_algorithm.rs", src="c01_wit.rs")], harnesses=[])
-wit.native_witnesses = ["c05_wit_no_path_exactly_when_unreachable"]
+wit.native_witnesses = ["c05_wit_no_path_exactly_when_unreachable", "c02_wit_tree_labels_are_least_costs"]
 al = VerusUnit("al_astar", "al_astar", rlimit=60, paired_kani=(wit, []))
 dp = VerusUnit("c01_dispatch", "c01_dispatch", rlimit=60, paired_kani=(wit, []))
 UNITS = [al, dp, wit]
@@ -12,5 +12,8 @@ EXPLANATION = ("run_a_star + advance_search under contract: 'no path' is produce
                "labelled set is closed under every edge the frontier model permitted and does not contain the target; a returned tree contains the target; "
                "without a target the search returns only at queue exhaustion with the closed labelled set; "
                "the whole 'only if' argument as lemmas (induction on the path): with an exhausted queue every vertex that a permitted path from the source reaches is labelled, hence when 'no path' is reported NO permitted path from "
-               "the source ends at the target (edge-local frontier models); SearchAlgorithm::run_vertex_oriented reports 'no path' only as run_a_star does (unit c01_dispatch)")
-NOT_DECIDED = "frontier models whose verdict depends on the state or the previous edge (turn restrictions): the closure lemma is stated for edge-local models; least cost of each label in the destination-less tree (optimality, C02); wall-clock needed to exhaust the queue"
+               "the source ends at the target (edge-local frontier models); SearchAlgorithm::run_vertex_oriented reports 'no path' only as run_a_star does (unit c01_dispatch); "
+               "'each labelled with its least cost when edge costs do not depend on how the edge was reached': invariant BELL on the verbatim run_a_star (Bellman's condition on every incident edge of a vertex that was expanded and is not "
+               "queued again) gives postcondition least_post for a destination-less search, and lemma_tree_route_least (via lemma_label_le_path and lemma_chain_cost_le_label, both by induction) concludes that the route the tree stores for a "
+               "vertex costs no more than ANY permitted path from the origin to it (hypotheses: cost_local -- perform_edge_traversal charges one number per edge -- and an edge-local frontier model)")
+NOT_DECIDED = "frontier models whose verdict depends on the state or the previous edge (turn restrictions): the closure lemma is stated for edge-local models; wall-clock needed to exhaust the queue"
